@@ -30,6 +30,10 @@ def run(ch: Checker) -> None:
     ch.rule('C04.4', 'typestate: once the follow-up request parser is complete every normal way out of on_client_data resets it to None (unless the request was a protocol upgrade); '
                      'it is reset only when complete; handle_pipeline_response resets the follow-up response parser exactly when it is complete', 4)
 
+    ch.rule('C04.5', 'connection-management tokens (keep-alive, close, upgrade, websocket, chunked) are compared with a header value only after .lower(): '
+                     'RFC 7230 tokens are case-insensitive and clients do send `Keep-Alive`; a case-sensitive test silently ends persistence for those clients', 3)
+    token_case_check(ch, 'C04.5')
+
     # ---------------- C04.1
     hp = prog.class_named('HttpParser')
     readers = []
@@ -156,6 +160,53 @@ def run(ch: Checker) -> None:
             bad = ('the follow-up response parser is %s' % ('kept after it completed' if comp else 'discarded before the response completed'), p.describe())
         # nothing else may be reset here (e.g. the request parser: its life ends when the request was forwarded)
         other = [norm(st) for i, st in p.stmts() if isinstance(st, ast.Assign) and attr_chain(st.targets[0]) == 'self.pipeline_request']
-        if other:
-            bad = ('handle_pipeline_response edits the follow-up REQUEST parser (%s): its lifetime must end when the request is forwarded, not when some response completes' % other[0], p.describe())
+        # one exception: a retained upgrade request whose response was not 101 (the upgrade was declined) is dropped so that parsing continues
+        declined = fd.get('self.pipeline_request.is_connection_upgrade') is True and fd.get("self.pipeline_response.code == b'101'") is False and bool(comp)
+        if other and not declined:
+            bad = ('handle_pipeline_response edits the follow-up REQUEST parser (%s) on a path that is not "upgrade offered and answered with something other than 101": its lifetime must end when the request is forwarded, not when some response completes' % other[0], p.describe())
     ch.check(bad is None and n > 0, 'C04.4', hpr, 'response parser reset', 'follow-up response parser reset exactly when complete', bad[0] if bad else '', witness=bad[1] if bad else None)
+
+
+TOKENS = {b'keep-alive', b'close', b'upgrade', b'websocket', b'chunked'}
+
+
+def _token_side(e: ast.AST) -> bool:
+    if isinstance(e, ast.Constant) and isinstance(e.value, bytes):
+        return e.value in TOKENS
+    if isinstance(e, (ast.Tuple, ast.List, ast.Set)) and e.elts:
+        return all(isinstance(x, ast.Constant) and isinstance(x.value, bytes) for x in e.elts) and any(x.value in TOKENS for x in e.elts)  # type: ignore[attr-defined]
+    return False
+
+
+def token_case_check(ch: Checker, rule: str) -> None:
+    prog = ch.prog
+    hp = prog.class_named('HttpParser')
+    n = 0
+    for fn in hp.methods.values():
+        cmps = [c for c in walk_no_nested(fn.node) if isinstance(c, ast.Compare) and len(c.ops) == 1 and isinstance(c.ops[0], (ast.Eq, ast.NotEq, ast.In, ast.NotIn))
+                and (_token_side(c.left) != _token_side(c.comparators[0]))]
+        if not cmps:
+            continue
+        g = cfg_of(fn, prog, exc_edges=False)
+        verdict: Dict[int, Tuple[ast.Compare, bool, str]] = {}
+        for p in fpaths(g):
+            ch.paths += 1
+            sym = Sym(p)
+            for i, nd, lab in p.executed():
+                if nd.ast is None:
+                    continue
+                for c in walk_no_nested(nd.ast if nd.kind != 'for' else nd.ast.iter):  # type: ignore[union-attr]
+                    if not any(c is x for x in cmps):
+                        continue
+                    other = c.comparators[0] if _token_side(c.left) else c.left  # type: ignore[attr-defined]
+                    v = sym.value(other, i)
+                    lowered = any(isinstance(x, ast.Call) and isinstance(x.func, ast.Attribute) and x.func.attr in ('lower', 'casefold') for x in ast.walk(v))
+                    prev = verdict.get(id(c))
+                    verdict[id(c)] = (c, (prev[1] if prev else True) and lowered, norm(v)[:90])  # type: ignore[arg-type]
+        for c, ok, txt in verdict.values():
+            n += 1
+            ch.check(ok, rule, fn, c, 'token compared after .lower()',
+                     'the header value (%s) is compared with a lower-case token without being lower-cased: `Connection: Keep-Alive` / `Upgrade: WebSocket` / `Transfer-Encoding: Chunked` '
+                     'are not recognised, so e.g. a client announcing Keep-Alive never gets its follow-up requests answered' % txt)
+    if n == 0:
+        ch.bad(rule, None, 'token comparisons', 'no comparison of a header value with a connection-management token found in HttpParser', module_rel='proxy/http/parser/parser.py')
